@@ -62,31 +62,7 @@ impl Sha256 {
     { unimplemented!() }
 }
 
-// ---- sos_core::{encode, decode} -------------------------------------------------
-/// the encoding *function* of a type, on views (C14: the real encoder equals it)
-pub trait Encoded: View {
-    spec fn enc_view(v: Self::V) -> Seq<u8>;
-}
-/// the decoding function of a type on a whole buffer, on views
-pub trait Decoded: View + Sized {
-    spec fn dec_view(b: Seq<u8>) -> Option<Self::V>;
-}
-/// `sos_core::encode` (crates/core/src/encoding/mod.rs:37): binary_stream
-/// `encode(encodable, options)` = the value's `Encodable::encode` into a fresh
-/// buffer; an io error (16 MiB guards) becomes sos_core::Error
-#[verifier::external_body]
-pub fn encode<T: Encoded>(encodable: &T) -> (r: CResult<Vec<u8>>)
-    ensures r is Ok ==> r->Ok_0@ == T::enc_view(encodable@),
-{ unimplemented!() }
-/// `sos_core::decode` (mod.rs:42): `T::default()` then `T::decode` on a reader
-/// over the buffer
-#[verifier::external_body]
-pub fn decode<T: Decoded>(buffer: &[u8]) -> (r: CResult<T>)
-    ensures
-        r is Ok <==> T::dec_view(buffer@) is Some,
-        r is Ok ==> Some(r->Ok_0@) == T::dec_view(buffer@),
-{ unimplemented!() }
-
+// ---- codecs of the value types (entry points: prelude/vault_encode.rs) ------------
 /// `impl Encodable for AeadPack` (crates/core/src/encoding/v1/crypto.rs): the
 /// function proved equal to the real encoder in unit `codec`
 /// (`[encode_writes_exactly_enc_fn]` for AeadPack)
